@@ -588,6 +588,12 @@ class MeshCase:
 # its meaning when earlier ops are dropped during minimisation)
 # --------------------------------------------------------------------------
 def eta_value(op, box, axis):
+    # the marking rule is scale invariant: a converged estimator hands over
+    # indicators of size 1e-10, a bad start ones of size 1e6
+    return op.get('scale', 1.0) * _eta_base(op, box, axis)
+
+
+def _eta_base(op, box, axis):
     cls = op['cls']
     h = H(op['seed'], box, axis)
     u = (h % (1 << 30)) / float(1 << 30)
@@ -948,11 +954,39 @@ def apply_op(case, op, cov, mode, log):
     for p in mode.get('post', ()):
         getattr(case, 'check_' + p)(site) if p != 'neighbours' else (
             case.check_neighbours(site, cov))
-    st = model.key()
+    st = state_key(model)
     cov.add('mesh_states', st)
     cov.add('mesh_transitions', (hash(frozenset(before)), kind, st))
     cov.max('max_leaves', len(model.leaves))
     log.append((kind, len(model.leaves), st & 0xffffffff))
+
+
+def state_key(model):
+    """Canonical hash of a mesh state: configuration + leaf set."""
+    return hash((model.n_t, model.n_x, model.glued, frozenset(model.leaves)))
+
+
+def reachable_states(n_t, n_x, glued, depth):
+    """All states reachable from the n_t x n_x initial mesh by at most
+    `depth` single bisections (time or space of any leaf), counted in the
+    MODEL alone -- a yardstick for the coverage of the sampled runs, not a
+    deciding step."""
+    start = RefMesh(n_t, n_x, glued)
+    seen = {state_key(start)}
+    frontier = [start]
+    for _ in range(depth):
+        nxt = []
+        for m in frontier:
+            for lf in list(m.leaves):
+                for ax in (0, 1):
+                    c = m.copy()
+                    c.bisect(lf, ax)
+                    k = state_key(c)
+                    if k not in seen:
+                        seen.add(k)
+                        nxt.append(c)
+        frontier = nxt
+    return seen
 
 
 # --------------------------------------------------------------------------
@@ -1019,8 +1053,17 @@ def gen_run(seed, params):
     """Explicit run: config + op list (points, classes, sub-seeds written
     out).  Generated against the model only."""
     rng = stream(seed, 'workload')
+    small = 'plain' in params.get('config_kinds', ('plain', 'param')) and (
+        rng.random() < params.get('p_small', 0.15))
     for attempt in range(20):
         config = gen_config(rng, params)
+        if small:
+            # the smallest initial meshes, short uniform-random bisection
+            # sequences: where structural bugs surface first
+            n_t, n_x = rng.choice([(1, 1), (1, 1), (1, 2), (2, 1), (2, 2)])
+            config = {'kind': 'plain', 'glued': rng.random() < 0.5,
+                      'space': [float(k) for k in range(n_x + 1)],
+                      'time': [float(k) for k in range(n_t + 1)]}
         try:
             case = MeshCase(config)
         except Finding:
@@ -1042,6 +1085,10 @@ def gen_run(seed, params):
         n_ops = rng.randint(41, params.get('max_ops', 200))
     bias = rng.choice([0.2, 0.5, 0.8])
     focus = rng.random() < 0.5  # keep refining near one point (cascades)
+    if small:
+        n_ops = rng.randint(1, 5)
+        bias, focus = 0.5, False
+        w = {k: (v if k == 'bisect' else 0.03 * v) for k, v in w.items()}
     fpt = None
     kinds = [k for k in w if w[k] > 0]
     ops = []
@@ -1083,7 +1130,8 @@ def gen_run(seed, params):
                     0.9, 0.6, 0.999999, 0.99, 0.001, 0.05
                 ]),
                 'pt': [(lf[0] + lf[1]) // 2, (lf[2] + lf[3]) // 2],
-                'dom_axis': rng.randint(0, 1)
+                'dom_axis': rng.randint(0, 1),
+                'scale': rng.choice([1.0, 1.0, 1.0, 1e-10, 1e-6, 1e6, 2.0**-40])
             }
         elif kind == 'grading':
             op = {'op': 'grading', 'sigma': rng.choice([1, 1.5, 2, 2])}
